@@ -66,7 +66,9 @@ def build_harness(name, repo, inc=None, extra_flags=(), tag=""):
     src = os.path.join(HARNESS, name + ".cpp")
     key = _tree_hash(incdirs + [src] + [os.path.join(HARNESS, f) for f in os.listdir(HARNESS) if f.endswith(".hpp")])
     key = hashlib.sha1((key + repr(extra_flags) + repo).encode()).hexdigest()[:16]
-    exe = os.path.join(BUILD, name + tag)
+    # one binary per source tree, so that concurrent checks of different trees do not clobber each other
+    rtag = "" if os.path.abspath(repo) == "/repo" else "." + hashlib.sha1(os.path.abspath(repo).encode()).hexdigest()[:8]
+    exe = os.path.join(BUILD, name + tag + rtag)
     stamp = exe + ".stamp"
     if os.path.exists(exe) and os.path.exists(stamp) and open(stamp).read() == key:
         return exe
